@@ -295,6 +295,7 @@ class SimSelector(selectors.SelectSelector):
         if timeout is None:
             raise Violation("blocked", "event loop would wait forever (no timer, nothing ready)", "async-hang")
         if timeout <= 0:
+            sim.now_ns += 20_000  # one trip round the event loop costs time too: a busy-polling consumer still gets somewhere
             sim.yield_point("loop")
         else:
             sim.sleep_ns(int(timeout * 1e9) + 1)
